@@ -584,6 +584,7 @@ pub(crate) mod verif_timer {
         #[kani::stub(alloc::alloc::alloc, crate::verif::common::stub_alloc)]
         #[kani::stub(alloc::alloc::dealloc, crate::verif::common::stub_dealloc)]
         #[kani::stub(alloc::alloc::realloc, crate::verif::common::stub_realloc)]
+        #[kani::stub(alloc::fmt::format, crate::verif::common::stub_format)]
         fn hist_c18_stub_k3_drop_a4() { let _ = hist::<NoopLock, _>(&mut KaniSrc, 4 | (1 << 11), 64, P18); }
         macro_rules! hist_proof {
             ($name:ident, $lock:ty, $n:expr, $p:expr, $unw:expr) => {
